@@ -7,6 +7,11 @@ PY = '/venv/bin/python -B -W ignore /verif/mc/run.py'
 # id -> (technique, level text, level_note, design_ref)
 CLAIMED = json.load(open(os.path.join(VERIF, 'tools', 'claimed.json')))
 
+EXTRA = (' Beyond this core enumeration the check runs the same oracle on fixed, listed companions added after six waves of independently seeded '
+         'defects: structured large inputs, values of large / tiny / many-digit magnitude, other argument forms and dtypes, option defaults, the process '
+         'time zone, and call histories on one object; the complete list is the RULE string in the evidence file and DESIGN.md section 7.4. '
+         'Nothing outside the listed alphabets is decided.')
+
 props = [json.loads(l) for l in open(os.path.join(VERIF, 'properties.jsonl'))]
 checks, na = [], []
 for p in props:
@@ -23,7 +28,7 @@ for p in props:
         replay_cmd_template=f'{PY} {pid} --replay {{path}}',
         engine='mc-explorer',
         level_claimed=dict(category='model_checking', text=c['text'], design_ref=c.get('design_ref', f'DESIGN.md section 3 {pid}')),
-        level_note=c['note'],
+        level_note=c['note'] + EXTRA,
         technique=c['technique'],
     ))
 m = dict(
